@@ -5,6 +5,7 @@ import (
 	"fmt"
 	"io"
 	"math/big"
+	"os"
 	"os/exec"
 	"strings"
 	"time"
@@ -179,7 +180,21 @@ func (s *Solver) Check(asserts []*Term, wantModel bool) (Result, map[string]*Ter
 		sb.WriteString(")\n")
 	}
 	sb.WriteString("(check-sat)\n")
-	s.send(sb.String())
+	// watchdog: z3 does not always honour :timeout (non-linear preprocessing)
+	proc := s.cmd.Process
+	wd := time.AfterFunc(time.Duration(s.TimeoutMs+3000)*time.Millisecond, func() { proc.Kill() })
+	defer wd.Stop()
+	tq := time.Now()
+	qtext := sb.String()
+	defer func() {
+		if d := time.Since(tq); d > 2*time.Second {
+			if dir := os.Getenv("VERIF_SLOWLOG"); dir != "" {
+				os.MkdirAll(dir, 0o755)
+				os.WriteFile(fmt.Sprintf("%s/slow_%d_%d.smt2", dir, os.Getpid(), time.Now().UnixNano()), []byte(fmt.Sprintf("; %.1fs\n%s", d.Seconds(), qtext)), 0o644)
+			}
+		}
+	}()
+	s.send(qtext)
 	line, err := s.readLine()
 	for err == nil && strings.TrimSpace(line) == "" {
 		line, err = s.readLine()
